@@ -10,7 +10,10 @@ import (
 	"github.com/google/gce-tcb-verifier/cmd/output"
 	"github.com/google/gce-tcb-verifier/gcetcbendorsement"
 	"github.com/google/gce-tcb-verifier/verify"
+	epb "github.com/google/gce-tcb-verifier/proto/endorsement"
+	cpb "github.com/google/go-sev-guest/proto/check"
 	spb "github.com/google/go-sev-guest/proto/sevsnp"
+	"google.golang.org/protobuf/proto"
 
 	"verifsim/core"
 	"verifsim/images"
@@ -227,7 +230,7 @@ func runC09(r *core.Run) {
 			}
 			t.meas, t.measClass = is.Golden.SevSnp.Measurements[c], "endorsed"
 		case 1:
-			t.meas, t.measClass = otherIs.Golden.SevSnp.Measurements[[]uint32{2, 4, 8}[r.Intn(3, "other-count")]], "unendorsed"
+			t.meas, t.measClass = otherIs.Golden.SevSnp.Measurements[[]uint32{2, 2, 4, 8}[r.Intn(4, "other-count")]], "unendorsed"
 		default:
 			c := []uint32{16, 24, 32}[r.Intn(3, "else-count")]
 			t.meas, t.measClass = is.Golden.SevSnp.Measurements[c], "endorsed-other-count"
@@ -256,8 +259,14 @@ func runC09(r *core.Run) {
 		}
 		return o
 	}
+	withBase := r.Bool("base-policy?")
 	newSevOpts := func() *gcetcbendorsement.SevValidateOptions {
-		return &gcetcbendorsement.SevValidateOptions{RootsOfTrust: mkPool(), Now: now, Getter: net, ExpectedLaunchVmsas: named}
+		o := &gcetcbendorsement.SevValidateOptions{RootsOfTrust: mkPool(), Now: now, Getter: net, ExpectedLaunchVmsas: named}
+		if withBase {
+			// a caller-owned base policy, one object per options value
+			o.BasePolicy = &cpb.Policy{MinimumVersion: "0.0", Policy: ProdPolicy}
+		}
+		return o
 	}
 	call := func(t *c09Task, f func(*spb.Attestation, []byte) error, o *verify.Options, so *gcetcbendorsement.SevValidateOptions) error {
 		if shape == 2 {
@@ -289,6 +298,28 @@ func runC09(r *core.Run) {
 	sharedOpts := newOpts()
 	sharedSev := newSevOpts()
 	sharedF := verify.SNPValidateFunc(sharedOpts)
+	// A poisoned delivery first (sometimes): an endorsement whose golden measurement parses up to a
+	// measurements entry carrying the UNENDORSED measurement (under a count the genuine document
+	// does not list) and is then cut: rejected, and nothing of it may survive into later calls.
+	poisonMeas := otherIs.Golden.SevSnp.Measurements[2]
+	if r.Chance(30, "poison-first?") {
+		extra, _ := proto.Marshal(&epb.VMGoldenMeasurement{SevSnp: &epb.VMSevSnp{Measurements: map[uint32][]byte{3: poisonMeas}}})
+		payload := append(append(append([]byte(nil), is.Proto.SerializedUefiGolden...), extra...), 0xff, 0xff, 0xff, 0xff)
+		bad, _ := proto.Marshal(&epb.VMLaunchEndorsement{SerializedUefiGolden: payload, Signature: is.Proto.Signature})
+		pt := &c09Task{meas: poisonMeas, measClass: "unendorsed", source: 0, blob: bad, blobClass: "poisoned"}
+		for i := 0; i < 2; i++ {
+			var perr error
+			if shape == 2 {
+				perr = gcetcbendorsement.SevValidate(ctx, SnpAttestation(pt.meas, bad), sharedSev)
+			} else {
+				perr = sharedF(SnpAttestation(pt.meas, nil), bad)
+			}
+			if perr == nil {
+				r.Fail("unendorsed-accepted", "poisoned-delivery", "a cut endorsement carrying the unendorsed measurement was accepted")
+			}
+		}
+		r.Probe("poisoned-delivery-first")
+	}
 	successive := r.Chance(15, "successive-only?")
 	if successive {
 		s.maxSteps = 0
